@@ -23,6 +23,12 @@ FLAV = {
     "cs-dbg": dict(cxx="g++", flags=["-O1", "-g1", "-DTBB_USE_ASSERT=1", "-DONETBB_VERIF=1", "-DVS_TSO_DTOR=1", "-include", PRELUDE, "-flifetime-dse=1"], prelude=True),
     "plain":  dict(cxx="g++", flags=["-O2", "-DNDEBUG"], prelude=False),
     "tsan":   dict(cxx="g++", flags=["-O1", "-g", "-fsanitize=thread", "-DNDEBUG"], prelude=False),
+    # libFuzzer targets: the harness TU gets -fsanitize=fuzzer,...; library/extra sources get fuzzer-no-link (see compile_obj)
+    "fuzz":   dict(cxx="clang++", flags=["-g", "-O1", "-fsanitize=fuzzer-no-link,address,undefined", "-fno-sanitize-recover=undefined"], prelude=False,
+                   link=["-fsanitize=fuzzer,address,undefined"]),
+    # plain ASan+UBSan build with g++ (rapidcheck / sequential legs that want memory errors visible)
+    "asan":   dict(cxx="g++", flags=["-g", "-O1", "-fsanitize=address,undefined", "-fno-sanitize-recover=undefined", "-fno-omit-frame-pointer"], prelude=False,
+                   link=["-fsanitize=address,undefined"]),
 }
 TBB_DEFS = ["-D__TBB_BUILD", "-D__TBB_DYNAMIC_LOAD_ENABLED=0", "-D__TBB_SOURCE_DIRECTLY_INCLUDED=1"]
 MALLOC_DEFS = ["-D__TBBMALLOC_BUILD", "-D__TBB_DYNAMIC_LOAD_ENABLED=0", "-D__TBB_SOURCE_DIRECTLY_INCLUDED=1", "-fno-rtti", "-fno-exceptions"]
@@ -142,7 +148,8 @@ def prune(flavour, keep_s=6 * 3600, max_files=1200):
                 pass
 
 
-def build_harness(flavour, harness_src, name=None, with_malloc=False, extra_flags=(), link_tbb=True, extra_link=()):
+def build_harness(flavour, harness_src, name=None, with_malloc=False, extra_flags=(), link_tbb=True, extra_link=(), extra_srcs=()):
+    """extra_srcs: [(repo-relative or absolute source, [extra flags])] compiled with the flavour's flags and linked in"""
     """returns (binary path or None, log).  The binary lives in the cache, keyed by all its inputs."""
     os.makedirs(CACHE, exist_ok=True)
     lock = open(os.path.join(CACHE, ".lock-" + flavour), "w")
@@ -161,7 +168,13 @@ def build_harness(flavour, harness_src, name=None, with_malloc=False, extra_flag
         if hobj is None:
             return None, log
         link = list(objs) + [hobj]
-        ldflags = ["-pthread", "-ldl", "-rdynamic"]
+        for es, ef in extra_srcs:
+            esp = es if os.path.isabs(es) else os.path.join(REPO, es)
+            eo, log = compile_obj(flavour, esp, ["-I", os.path.join(REPO, "include"), "-I", os.path.join(VERIF, "engine")] + list(ef), "extra")
+            if eo is None:
+                return None, log
+            link.append(eo)
+        ldflags = ["-pthread", "-ldl", "-rdynamic"] + list(fl.get("link", []))
         if fl["prelude"]:
             rt, log = rt_object(flavour)
             if rt is None:
